@@ -8,22 +8,129 @@ RULE = ("random write/delete histories (delete+recreate, no-op rewrites, reverts
         "ETag, removed as 404, nothing else, returned token = current token, replica(old)+report = current); never-issued tokens (random hex, truncated, upper-case, non-hex, "
         "non-ASCII, blob/commit ids, other collections' tokens) must be refused with a 4xx; distinct = distinct (backend, token class, #changed, #removed, old-state-empty?)")
 WEIGHTS = {"put_same": 4, "put_reser": 2, "put_change": 8, "put_revert": 5, "put_new": 9, "delete": 8, "proppatch": 1, "restart": 0.6, "put_invalid": 1, "read": 1,
-           "delete_col": 0.5, "mkcol_new": 1.2}
+           "delete_col": 0.5, "mkcol_new": 1.2, "put_moved": 4, "put_swap": 3}
 MON = [monitors.C07Monitor]
 
 
 def run_shard(args):
+    if args.get("mode") == "replica":
+        return run_replica(args)
     return histrun.run_history(args, MON, common.Result(), weights=WEIGHTS, driver_kw={"pool": 7, "audit_every": 4})
+
+
+def run_replica(args):
+    """A syncing client (replica = {name: etag}, always syncing from the token it was given last) runs
+    concurrently with a writing client against the real CLI server; delays are injected in the server at
+    reads of the index / refs (where a report really can be overtaken by a worker-thread write).  At the
+    end (quiescent) one more sync must make the replica equal to the collection."""
+    import random
+    import threading
+    import time
+    import traceback
+    from vf import world as W, davxml as X, gen, fe as FE, monitors
+    res = common.Result()
+    rng = random.Random(args["seed"])
+    base = common.mkscratch("c07r")
+    agent = {"log": None, "delay_read_ms": args.get("delay_ms", 6), "delay_read_re": r"(/index$|/refs/heads/|/HEAD$|packed-refs$)", "delay_seed": args["seed"]}
+    w = W.World(base, fe_kind="aio", prefix="/", seed=args["seed"], agent=agent)
+    w.res = res
+    try:
+        w.start()
+        if args["backend"] == "bare":
+            w.stop()
+            w.provision_bare("/user/calendars/rep/", "calendar", meta="gitconfig")
+            w.start()
+        else:
+            w.mkcol("/user/calendars/rep/", "calendar")
+        col = "/user/calendars/rep/"
+        names = ["m%d.ics" % i for i in range(4)]
+        for nm in names:
+            w.put(col, nm, gen.ical(rng, "uid-" + nm, w.new_token(), rich=False))
+        stop = threading.Event()
+        counts = {"writes": 0, "syncs": 0, "sync_errors": 0}
+
+        def writer():
+            r = random.Random(args["seed"] + 1)
+            k = 0
+            while not stop.is_set():
+                k += 1
+                nm = r.choice(names)
+                body = gen.ical(r, "uid-" + nm, "W%dz" % k, rich=False)
+                resp = FE.raw_http(w.fe.addr, "PUT", w.url(col, nm), [("Content-Type", "text/calendar")], body, timeout=20)
+                if resp.status in (201, 204):
+                    counts["writes"] += 1
+                time.sleep(r.random() * 0.01)
+
+        replica = {}
+        token = [None]
+
+        def sync_once():
+            resp = FE.raw_http(w.fe.addr, "REPORT", w.url(col), [("Depth", "1"), X.XML_CT], X.sync_collection(token[0]), timeout=20)
+            if resp.status != 207:
+                counts["sync_errors"] += 1
+                return False
+            ms, newtok, problems = monitors.parse_report_members(w, col, resp.body)
+            for n, r_ in ms.items():
+                if not n:
+                    continue
+                if r_.status == 404:
+                    replica.pop(n, None)
+                else:
+                    et = r_.prop_text(X.P_ETAG)
+                    if et is not None:
+                        replica[n] = et
+            token[0] = newtok
+            counts["syncs"] += 1
+            return True
+
+        def syncer():
+            while not stop.is_set():
+                sync_once()
+
+        tw, ts = threading.Thread(target=writer), threading.Thread(target=syncer)
+        tw.start(); ts.start()
+        time.sleep(args["seconds"])
+        stop.set()
+        tw.join(); ts.join()
+        # quiescent: one more incremental sync from the last token the client was given
+        ok = sync_once()
+        actual = {}
+        for nm in names:
+            st, et, body, _ = w.fetch(col, nm)
+            if st == 200:
+                actual[nm] = et
+        res.evaluations += counts["syncs"]
+        res.count("replica_syncs_concurrent_with_writes", counts["syncs"])
+        res.count("replica_writes", counts["writes"])
+        res.count("replica_runs")
+        res.seen("replica", args["backend"], counts["syncs"] > 5, counts["writes"] > 5)
+        res.seen("replica2", args["backend"], args["seed"])
+        if not ok:
+            res.inconclusive.append("final sync failed")
+        elif replica != actual:
+            diff = {n: (replica.get(n), actual.get(n)) for n in set(replica) | set(actual) if replica.get(n) != actual.get(n)}
+            res.violation(f"aio/{args['backend']}/concurrent-sync/replica-diverges-after-final-sync", f"a client that always synced from the token it was given ends with a replica different from the collection: {diff!r} "
+                          f"({counts['syncs']} syncs concurrent with {counts['writes']} writes)", {"config": dict(args)})
+        res.sample({"config": dict(args), "counts": counts}, cap=2)
+    except Exception:
+        res.inconclusive.append("harness exception: " + traceback.format_exc()[-1500:])
+    finally:
+        w.stop()
+        common.rmtree(base)
+    return res
 
 
 def check(tier, seed, t0):
     shards = _hist.plan(tier, seed, quick=(12, 70, 1), thorough=(16, 120, 6))
+    for i in range(4 if tier == "quick" else 12):
+        shards.append({"mode": "replica", "backend": ["tree", "bare"][i % 2], "seed": seed * 100 + 70 + i, "seconds": 6 if tier == "quick" else 30, "delay_ms": [4, 8][(i // 2) % 2]})
     merged, failures = _hist.run("vf.props.c07", shards, tier)
     c = merged["counters"]
     k = 1 if tier == "quick" else 8
     guards = [("sync reports checked", c.get("sync_reports", 0), 1500 * k), ("reports with non-empty change set", c.get("sync_nonempty", 0), 200 * k),
               ("reports with removals", c.get("sync_with_removals", 0), 100 * k), ("foreign-token probes", c.get("foreign_probes", 0), 100 * k),
-              ("earlier-token reports", c.get("sync_reports:earlier-token", 0), 500 * k), ("restarts", c.get("restarts", 0), 3)]
+              ("earlier-token reports", c.get("sync_reports:earlier-token", 0), 500 * k), ("restarts", c.get("restarts", 0), 3),
+              ("syncs concurrent with writes (replica runs)", c.get("replica_syncs_concurrent_with_writes", 0), 300 * (1 if tier == "quick" else 6)), ("writes during replica runs", c.get("replica_writes", 0), 100)]
     return common.finish(PROP, tier, seed, "exploration", merged, failures, RULE, t0, guards=guards,
                          assumptions=["a token equal by value to one this collection issued is not foreign", "requests carry no DAV:limit"])
 
